@@ -44,7 +44,8 @@ class Shim:
         """Start a new counting window (one save or one load)."""
         self.nmut = 0
         self.nall = 0
-        self.plan = plan
+        # a private copy: the transient kind records its key in the plan, which must not leak into the step / replay doc
+        self.plan = {k: v for k, v in plan.items() if k != "key"} if plan else None
         self.fired = []
         self.transient_left = {}
 
